@@ -239,12 +239,13 @@ func classOf(c *Case, po *action.SignedTx, e *Enc) string {
 // sameSignedContent: the same signed part (type, data, fee, memo) and every original signature entry
 // still present, in order, at the head of the list: only the unsigned signature list was extended.
 func sameSignedContent(a, b *action.SignedTx) bool {
-	if a.Type != b.Type || !bytes.Equal(a.Data, b.Data) || !sameFee(a.Fee, b.Fee) || a.Memo != b.Memo || len(b.Signatures) <= len(a.Signatures) {
+	if a.Type != b.Type || !bytes.Equal(a.Data, b.Data) || !sameFee(a.Fee, b.Fee) || a.Memo != b.Memo || len(b.Signatures) < len(a.Signatures) {
 		return false
 	}
 	for i := range a.Signatures {
 		x, y := a.Signatures[i], b.Signatures[i]
-		if x.Signer.KeyType != y.Signer.KeyType || !bytes.Equal(x.Signer.Data, y.Signer.Data) || !bytes.Equal(x.Signed, y.Signed) {
+		// the signature bytes are the original's; the key entry may be the same key in another container
+		if !bytes.Equal(x.Signed, y.Signed) || !bytes.HasSuffix(y.Signer.Data, x.Signer.Data) {
 			return false
 		}
 	}
@@ -253,7 +254,8 @@ func sameSignedContent(a, b *action.SignedTx) bool {
 
 // sigListOps: the signature list is not covered by any signature. These operators keep the signed part
 // and every original entry and append entries; the result is serialised canonically (SignedBytes).
-var sigListOps = []string{"siglist-append-copy-of-first", "siglist-append-junk", "siglist-append-foreign-valid", "siglist-append-empty-entry"}
+var sigListOps = []string{"siglist-append-copy-of-first", "siglist-append-junk", "siglist-append-foreign-valid", "siglist-append-empty-entry",
+	"siglist-key-amino-prefixed", "siglist-key-prefixed-5-bytes"}
 
 func sigListReencode(orig []byte, op string, foreign *sim.User) []byte {
 	tx, err := decode(orig)
@@ -274,6 +276,15 @@ func sigListReencode(orig []byte, op string, foreign *sim.User) []byte {
 		}
 	case "siglist-append-empty-entry":
 		tx.Signatures = append(tx.Signatures, action.Signature{})
+	case "siglist-key-amino-prefixed":
+		// the signer's key bytes behind tendermint's amino type prefix
+		pre := []byte{0x16, 0x24, 0xde, 0x64, 0x20}
+		if len(tx.Signatures[0].Signer.Data) == 33 {
+			pre = []byte{0xeb, 0x5a, 0xe9, 0x87, 0x21}
+		}
+		tx.Signatures[0].Signer.Data = append(pre, tx.Signatures[0].Signer.Data...)
+	case "siglist-key-prefixed-5-bytes":
+		tx.Signatures[0].Signer.Data = append([]byte{9, 8, 7, 6, 5}, tx.Signatures[0].Signer.Data...)
 	}
 	return tx.SignedBytes()
 }
@@ -479,7 +490,7 @@ func buildEncs(kind string, orig []byte, c chooser, excl func(string) bool) ([]E
 	return out, nil
 }
 
-const rule = "for each of the 33 transaction kinds (OLVM: transfers and message calls, including calls that fail inside the EVM by revert / out of gas and are committed as executed): a well-formed transaction executed in a block of a warmed-up state, then resubmitted 1..10 blocks later (occasionally 40..120; further resubmissions in the following blocks, the byte-identical one twice) byte-identical and under 18 re-encoding operators that keep the parsed signed content (whitespace, key order, duplicate keys, unknown members, key case, key / string escapes, base64 line breaks and trailing bits, numeric forms) and 4 operators that extend the unsigned signature list in a canonical encoding (copy of the first entry, junk, a valid signature of a foreign key, an empty entry; OLVM additionally 8 inner-payload / memo / signer-entry variants of the same EIP-155 content with a canonical outer encoding); every resubmission is classified with the parser (equivalent or not); oracle: CheckTx rejects and the block carrying it leaves the committed state equal to the twin's; non-trivial = the original succeeded with an effect beyond the fee (probe replica) and the resubmitted bytes differ from the original; distinct by (kind, operator)"
+const rule = "for each of the 33 transaction kinds (OLVM: transfers and message calls, including calls that fail inside the EVM by revert / out of gas and are committed as executed): a well-formed transaction executed in a block of a warmed-up state, then resubmitted 1..10 blocks later (occasionally 40..120; further resubmissions in the following blocks, the byte-identical one twice) byte-identical and under 18 re-encoding operators that keep the parsed signed content (whitespace, key order, duplicate keys, unknown members, key case, key / string escapes, base64 line breaks and trailing bits, numeric forms) and 6 operators that alter the unsigned signature list in a canonical encoding (appended: copy of the first entry, junk, a valid signature of a foreign key, an empty entry; the first signer's key bytes behind an amino prefix / five arbitrary bytes; OLVM additionally 8 inner-payload / memo / signer-entry variants of the same EIP-155 content with a canonical outer encoding); every resubmission is classified with the parser (equivalent or not); oracle: CheckTx rejects and the block carrying it leaves the committed state equal to the twin's; non-trivial = the original succeeded with an effect beyond the fee (probe replica) and the resubmitted bytes differ from the original; distinct by (kind, operator)"
 
 func TestC05(t *testing.T) {
 	h := run.Start(t, "C05")
